@@ -7,15 +7,23 @@ for m in sorted(glob.glob(os.path.join(V, "seeded", "*", "meta.json"))):
     d = json.load(open(m))
     cr = d["check_result"]
     rows.append("| %s | %s | %s | %s | %s |" % (d["id"], (d.get("summary") or "").replace("|", "/").replace("\n", " ")[:220],
-                (d.get("needs_to_manifest") or "").replace("|", "/").replace("\n", " ")[:200], cr["first_run"],
+                (d.get("needs_to_manifest") or "").replace("|", "/").replace("\n", " ")[:200], cr["first_run"][:60],
                 (cr["caught_by"] + (" - " + cr["note"] if cr.get("note") else "")).replace("|", "/")[:420]))
 tab = "| seed | change | needs | first run | caught by (now) |\n|---|---|---|---|---|\n" + "\n".join(rows)
 n = len(rows)
 first = {}
 for m in glob.glob(os.path.join(V, "seeded", "*", "meta.json")):
     f = json.load(open(m))["check_result"]["first_run"]; first[f] = first.get(f, 0) + 1
-tab += "\n\n%d seeded changes kept; first run: %s; now: all reported as VIOLATION with a reproducing native replay.\n" % (
-    n, ", ".join("%s %d" % kv for kv in sorted(first.items())))
+now = {}
+for m in glob.glob(os.path.join(V, "seeded", "*", "meta.json")):
+    f = json.load(open(m))["check_result"].get("now", ""); k = "VIOLATION with a reproducing native replay" if f.startswith("VIOLATION") else f
+    now[k] = now.get(k, 0) + 1
+short = {}
+for k, v in first.items():
+    kk = k.split(":")[0].split("(")[0].strip().split(" for ./check")[0][:40]
+    short[kk] = short.get(kk, 0) + v
+tab += "\n\n%d seeded changes kept; first run: %s; now: %s.\n" % (
+    n, ", ".join("%s %d" % kv for kv in sorted(short.items())), "; ".join("%s: %d" % kv for kv in sorted(now.items())))
 p = os.path.join(V, "DESIGN.md")
 s = open(p).read()
 B, E = "<!-- SEEDTABLE-BEGIN -->", "<!-- SEEDTABLE-END -->"
